@@ -153,7 +153,8 @@ def attribute(case: dict, target, code: str) -> tuple[str, str, str]:
         if d2 == case["doc"]:
             continue
         r = e2e.run_generate(d2, input_file_type=case.get("input_file_type", "jsonschema"), model=case["model"], opts=case["opts"],
-                             formatters=case.get("formatters"), timeout=15, target=target)
+                             formatters=case.get("formatters"), timeout=15, target=target,
+                             modular=bool(case["opts"].get("treat_dot_as_module")) or case.get("modular", False))
         if r.ok and all(e2e.parses(c, target) is None for p, c in r.files.items() if p.endswith(".py")):
             strs = all_strings(case["doc"], what) + (all_strings(case["doc"], "title") if what == "description" else [])
             cls = {c for s in strs for c in gens.classify_string(s)}
